@@ -430,9 +430,20 @@ def activations():
     # (no dotted names here: a macro variable that is also the head of a dotted binding is C12's known finding)
     acts["right"].update({"package": ct.IntType(7), "functions": ct.IntType(8), "get": ct.StringType("g")})
     acts["wrong"].update({"package": ct.StringType("p"), "functions": ct.ListType([]), "get": ct.IntType(1)})
+    acts["partial"] = {VARS[k]: right[k] for k in ("int", "bool", "string", "list", "timestamp")}
+    acts["partial"]["get"] = ct.StringType("g")
+    acts["empty-again"] = {}
     return acts
 
 
-ACT_NAMES = ["empty", "right", "wrong"]
+# The activations are applied in this order to ONE program object per term: "partial" (a proper subset of the names bound
+# just before) and "empty-again" come after the full ones, so a runner that lets a binding of an earlier evaluate() survive
+# answers differently from one that does not.
+ACT_NAMES = ["empty", "right", "wrong", "partial", "empty-again"]
+
+
+def activation_sequence(upto):
+    """The activations a program has seen when it is evaluated under ``upto`` (for replays)."""
+    return ACT_NAMES[:ACT_NAMES.index(upto) + 1] if upto in ACT_NAMES else [upto]
 AWKWARD_NAMES = ["functions", "package", "get", "clone", "identifiers", "resolve_variable", "resolve_function", "nested_activation", "__class__", "__dict__",
                  "__init__", "self", "activation", "celpy", "result", "logger", "CEL", "ex_1", "ex_10"]
